@@ -179,6 +179,7 @@ type venRule struct {
 	option string
 	params map[string]string
 	descr  string
+	late   bool // language-specific file: applied after every `language: all` rule
 }
 
 func (v venRule) selectsBuilder(b ast.Builder) bool {
@@ -221,6 +222,8 @@ type c17Monitor struct {
 	ctx         string
 	replay      map[string]any
 	events      int
+	bCount      int // builder-rule "after" events seen in this case (phase 1 rules come first, then the language-specific ones)
+	oCount      int
 }
 
 func snapshotBuilders(bs []ast.Builder) []ast.Builder {
@@ -236,13 +239,15 @@ func (m *c17Monitor) sink(site string, args ...any) {
 	case "veneer.builder_rule.before", "veneer.option_rule.before":
 		m.before = snapshotBuilders(args[2].([]ast.Builder))
 	case "veneer.builder_rule.after":
-		idx := args[0].(int)
+		idx := m.bCount
+		m.bCount++
 		if idx < len(m.bRules) {
 			m.events++
 			m.judge(m.bRules[idx], args[1].(ast.Schemas), m.before, args[2].([]ast.Builder))
 		}
 	case "veneer.option_rule.after":
-		idx := args[0].(int)
+		idx := m.oCount
+		m.oCount++
 		if idx < len(m.oRules) {
 			m.events++
 			m.judge(m.oRules[idx], args[1].(ast.Schemas), m.before, args[2].([]ast.Builder))
@@ -781,6 +786,21 @@ func genVeneerRules(rng *RNG, builders []ast.Builder, n int) []venRule {
 		rules = append(rules, mkOpt("disjunction_as_options", "choice", ""), mkOpt("unfold_boolean", "visible", ", true_as: show, false_as: hide"))
 	case 3:
 		rules = append(rules, mkOpt("struct_fields_as_options", "leaf", ""), mkOpt("array_to_append", "tags", ""))
+	case 4:
+		// an option produced by unfold_boolean (empty default marker) copied by an option-level duplicate
+		dup := mkOpt("duplicate", "show", ", as: display")
+		dup.params["as"] = "display"
+		rules = append(rules, mkOpt("unfold_boolean", "visible", ", true_as: show, false_as: hide"), dup)
+	case 5:
+		// a multi-argument option (common rules) promoted to the constructor by a language-specific rule
+		y := "  - promote_options_to_constructor: {by_object: Panel, options: [leaf]}\n"
+		rules = append(rules, mkOpt("struct_fields_as_arguments", "leaf", ""),
+			venRule{scope: "builder", kind: "promote_options_to_constructor", pkg: "aim", object: "Panel", params: map[string]string{}, yaml: y, descr: strings.TrimSpace(y), late: true})
+	case 6:
+		// unfold_boolean, then the whole builder duplicated by a language-specific rule
+		y := "  - duplicate: {by_object: Panel, as: PanelTwin}\n"
+		rules = append(rules, mkOpt("unfold_boolean", "visible", ", true_as: show, false_as: hide"),
+			venRule{scope: "builder", kind: "duplicate", pkg: "aim", object: "Panel", params: map[string]string{"as": "PanelTwin"}, yaml: y, descr: strings.TrimSpace(y), late: true})
 	}
 	for i := 0; i < n; i++ {
 		b := pick(rng, builders)
@@ -886,38 +906,52 @@ func checkC17(r *Run) {
 		var files []string
 		mon.bRules, mon.oRules = nil, nil
 		var allYAML strings.Builder
-		for _, pkg := range sortedKeys(byPkg) {
-			var sb strings.Builder
-			fmt.Fprintf(&sb, "language: all\npackage: %s\n", pkg)
-			sb.WriteString("builders:\n")
-			for _, v := range byPkg[pkg] {
-				if v.scope == "builder" {
-					sb.WriteString(v.yaml)
+		mon.bCount, mon.oCount = 0, 0
+		// rewriter order: `language: all` builder rules of all files (file order), then their option rules,
+		// then the same for the language-specific files
+		for _, late := range []bool{false, true} {
+			for _, pkg := range sortedKeys(byPkg) {
+				var sb strings.Builder
+				langName := "all"
+				if late {
+					langName = lang
+				}
+				fmt.Fprintf(&sb, "language: %s\npackage: %s\n", langName, pkg)
+				n := 0
+				sb.WriteString("builders:\n")
+				for _, v := range byPkg[pkg] {
+					if v.scope == "builder" && v.late == late {
+						sb.WriteString(v.yaml)
+						n++
+					}
+				}
+				sb.WriteString("options:\n")
+				for _, v := range byPkg[pkg] {
+					if v.scope == "option" && v.late == late {
+						sb.WriteString(v.yaml)
+						n++
+					}
+				}
+				if n == 0 && late {
+					continue
+				}
+				f := filepath.Join(sub, fmt.Sprintf("%s-%s.yaml", pkg, langName))
+				_ = os.WriteFile(f, []byte(sb.String()), 0o644)
+				files = append(files, f)
+				allYAML.WriteString(sb.String())
+			}
+			for _, pkg := range sortedKeys(byPkg) {
+				for _, v := range byPkg[pkg] {
+					if v.scope == "builder" && v.late == late {
+						mon.bRules = append(mon.bRules, v)
+					}
 				}
 			}
-			sb.WriteString("options:\n")
-			for _, v := range byPkg[pkg] {
-				if v.scope == "option" {
-					sb.WriteString(v.yaml)
-				}
-			}
-			f := filepath.Join(sub, pkg+".yaml")
-			_ = os.WriteFile(f, []byte(sb.String()), 0o644)
-			files = append(files, f)
-			allYAML.WriteString(sb.String())
-		}
-		// rewriter order: all builder rules of all files (file order), then all option rules
-		for _, pkg := range sortedKeys(byPkg) {
-			for _, v := range byPkg[pkg] {
-				if v.scope == "builder" {
-					mon.bRules = append(mon.bRules, v)
-				}
-			}
-		}
-		for _, pkg := range sortedKeys(byPkg) {
-			for _, v := range byPkg[pkg] {
-				if v.scope == "option" {
-					mon.oRules = append(mon.oRules, v)
+			for _, pkg := range sortedKeys(byPkg) {
+				for _, v := range byPkg[pkg] {
+					if v.scope == "option" && v.late == late {
+						mon.oRules = append(mon.oRules, v)
+					}
 				}
 			}
 		}
